@@ -12,6 +12,7 @@ import Mrm.Spec.Frame
 import Mrm.Spec.C05Any
 import Mrm.Model.Collection
 import Mrm.Spec.Collection
+import Mrm.DriverAccess
 
 open Lean
 
@@ -145,6 +146,13 @@ def handle (j : Json) : Except String Json := do
           ("C07", pj true (holdsC07 i o)),
           ("C12", pj (DomC12 i) (holdsC12 i o))]
         pure (Json.mkObj (base ++ [("props", props)]))
+  | "access" =>
+    let ro ← (j.getObjVal? "ro").bind xmlOfJson
+    handleAccess ro (j.getObjVal? "impl").toOption
+  | "spaces" =>
+    -- every scalar value the model treats as whitespace (the table behind `pyStrip`)
+    let cps := (List.range 0x110000).filter (fun n => (n < 0xD800 || n > 0xDFFF) && pyIsSpace (Char.ofNat n))
+    pure (Json.mkObj [("spaces", toJson cps)])
   | "collection" =>
     let docsJ ← (j.getObjVal? "docs").bind (·.getArr?)
     let docs ← docsJ.toList.mapM xmlOfJson
